@@ -10,13 +10,13 @@ A tree is built as python objects, the expectation is computed here from the *tr
 file is rendered by tools/oracle/pdfwriter.py.  The same tree is flattened to the object store the Coq model reads.
 """
 import struct
-from .pdfwriter import Name, Ref, Obj, Comp, Revision, write_file
+from .pdfwriter import Name, Ref, Obj, Comp, Revision, Stream, write_file
 
 ATTRS = ("mb", "cb", "res")
 
 
 class Node:
-    __slots__ = ("leaf", "kids", "mb", "cb", "res", "num", "count", "parent", "parent_num", "kid_nums")
+    __slots__ = ("leaf", "kids", "mb", "cb", "res", "num", "count", "parent", "parent_num", "kid_nums", "cs")
 
     def __init__(self, leaf, kids=None, mb=None, cb=None, res=None):
         self.leaf = leaf
@@ -27,6 +27,7 @@ class Node:
         self.parent = None        # structural parent (set by finish)
         self.parent_num = None    # override for the /Parent entry (object number) — out-of-domain cases only
         self.kid_nums = None      # override for the /Kids entry — out-of-domain cases only
+        self.cs = None            # ColourSpaces of the node's own /Resources (direct or indirect), None: no /ColorSpace entry
 
 
 def leaf(**kw):
@@ -113,6 +114,25 @@ def expected_query(root, nq):
     return out
 
 
+def expected_cs_page(lf, anc):
+    """the field mode page_cs prints for this leaf: the resources of the nearest node that has them, and the colour spaces
+    named by their /ColorSpace sub-dictionary, as they were written"""
+    for n in [lf] + anc:
+        if n.res is not None:
+            desc = n.cs.desc if n.cs is not None else {}
+            lst = ";".join("%s=%s" % (k, desc[k]) for k in sorted(desc)) or "-"
+            return ("P%d %s %s" % (lf.num, res_tok(n.res), lst)).encode()
+    return ("P%d !MissingEntry" % lf.num).encode()
+
+
+def expected_cs_query(root, nq):
+    ls = leaves(root)
+    out = [b"%d" % len(ls)]
+    for i in range(nq):
+        out.append(expected_cs_page(*ls[i]) if i < len(ls) else b"!PageOutOfBounds")
+    return out
+
+
 def expected_iter(root):
     return [b"P%d" % lf.num for lf, _ in leaves(root)]
 
@@ -148,6 +168,8 @@ def node_dict(n, boxrefs=None):
             d["Resources"] = Ref(n.res[1])
         else:
             d["Resources"] = {"Properties": {n.res[1]: {}}} if n.res[1] else {}
+            if n.cs is not None:
+                d["Resources"]["ColorSpace"] = dict(n.cs.entries)
     return d
 
 
@@ -160,6 +182,11 @@ def render(root, rng, catalog_num, res_objs, boxrefs=None, compress=0.0, fmt=Non
         objs[n.num] = node_dict(n, boxrefs)
     for num, key in res_objs.items():
         objs[num] = {"Properties": {key: {}}} if key else {"ProcSet": [Name("PDF")]}
+    for n in nodes(root):
+        if n.cs is not None:
+            if n.res is not None and n.res[0] == "R" and n.res[1] in objs:
+                objs[n.res[1]]["ColorSpace"] = dict(n.cs.entries)
+            objs.update(n.cs.objs)        # functions, look-up tables, ICC profiles, attribute dictionaries stored as objects
     for (nn, attr), num in (boxrefs or {}).items():
         node = [n for n in nodes(root) if n.num == nn][0]
         objs[num] = list(getattr(node, attr))
@@ -178,6 +205,212 @@ def render(root, rng, catalog_num, res_objs, boxrefs=None, compress=0.0, fmt=Non
                    objstm_filter=rng.choice([None, "flate"]) if any_comp else None)
     data, info = write_file([rev])
     return data
+
+
+# ---- colour spaces in a /Resources dictionary (ISO 32000-1 §8.6; functions §7.10) ----------------------------
+# Each constructor writes one well-formed colour space and says what it wrote (the token mode page_cs prints):
+#   DeviceGray | DeviceRGB | DeviceCMYK | Pattern
+#   CalGray{keys} | CalRGB{keys} | Lab{keys}                 keys of the dictionary, sorted, joined by '+'
+#   ICCBased(N,alternate|-)
+#   Indexed(base,hival,hex of the look-up table)
+#   Separation(name,alternate,fn)
+#   DeviceN(name+name…,alternate,fn,-|{keys of the attributes dictionary})
+#   fn = F<FunctionType>:<inputs>><outputs>
+NCOMP = {"DeviceGray": 1, "DeviceRGB": 3, "DeviceCMYK": 4}
+COLORANTS = ["Cyan", "Magenta", "Yellow", "Black", "Spot", "PANTONE#20123", "Gold", "Varnish", "All", "None"]
+
+
+class ColourSpaces:
+    """the /ColorSpace sub-dictionary of one resource dictionary: entries (name -> value as written), the objects the
+    values refer to, and the description of every entry"""
+    __slots__ = ("entries", "objs", "desc")
+
+    def __init__(self):
+        self.entries, self.objs, self.desc = {}, {}, {}
+
+
+def _keys(d):
+    return "{" + "+".join(sorted(d)) + "}"
+
+
+def _rbytes(rng, n):
+    return bytes(rng.randrange(256) for _ in range(n))
+
+
+def cs_function(rng, alloc, ftype, n_in, n_out, indirect=True):
+    """a function of type 2 (dictionary; one input by definition), 4 or 0 (streams, always indirect objects)"""
+    dom = [0, 1] * n_in
+    rg = [0, 1] * n_out
+    if ftype == 2:
+        d = {"FunctionType": 2, "Domain": [0, 1], "C0": [0] * n_out, "C1": [rng.choice([1, 0.5, 0.25]) for _ in range(n_out)],
+             "N": rng.choice([1, 2, 0.5])}
+        if rng.random() < 0.5:
+            d["Range"] = rg
+        v = alloc(d) if indirect else d
+    elif ftype == 4:
+        prog = "{ " + "pop " * n_in + " ".join(rng.choice(["0", "1", "0.5"]) for _ in range(n_out)) + " }"
+        v = alloc(Stream({"FunctionType": 4, "Domain": dom, "Range": rg}, prog.encode()))
+    else:
+        d = {"FunctionType": 0, "Domain": dom, "Range": rg, "Size": [2] * n_in, "BitsPerSample": 8}
+        if rng.random() < 0.3:
+            d["Order"] = 1
+        v = alloc(Stream(d, _rbytes(rng, (2 ** n_in) * n_out)))
+    return v, "F%d:%d>%d" % (ftype, n_in, n_out)
+
+
+def cs_cie(rng, fam):
+    if fam == "CalGray":
+        d = {"WhitePoint": [0.9505, 1, 1.089]}
+        if rng.random() < 0.6:
+            d["Gamma"] = 2.2
+        n = 1
+    elif fam == "CalRGB":
+        d = {"WhitePoint": [0.9505, 1, 1.089]}
+        if rng.random() < 0.6:
+            d["Gamma"] = [2.2, 2.2, 2.2]
+        if rng.random() < 0.6:
+            d["Matrix"] = [0.4124, 0.2126, 0.0193, 0.3576, 0.7152, 0.1192, 0.1805, 0.0722, 0.9505]
+        n = 3
+    else:
+        d = {"WhitePoint": [0.9642, 1, 0.8249]}
+        if rng.random() < 0.6:
+            d["Range"] = [-100, 100, -100, 100]
+        if rng.random() < 0.3:
+            d["BlackPoint"] = [0, 0, 0]
+        n = 3
+    return [Name(fam), d], fam + _keys(d), n
+
+
+def cs_icc(rng, alloc, n=None, alt=None):
+    n = rng.choice([1, 3, 4]) if n is None else n
+    d = {"N": n}
+    a = "-"
+    if alt is None:
+        alt = rng.random() < 0.5
+    if alt:
+        a = {1: "DeviceGray", 3: "DeviceRGB", 4: "DeviceCMYK"}[n]
+        d["Alternate"] = Name(a)
+    if rng.random() < 0.3:
+        d["Range"] = [0, 1] * n
+    return [Name("ICCBased"), alloc(Stream(d, _rbytes(rng, rng.choice([0, 20, 128]))))], "ICCBased(%d,%s)" % (n, a), n
+
+
+def cs_base(rng, alloc, simple=False):
+    """a space usable as an alternate space or as the base of an Indexed space: (value, description, components)"""
+    k = rng.randrange(3 if simple else 6)
+    if k < 3:
+        nm = ["DeviceGray", "DeviceRGB", "DeviceCMYK"][k]
+        return Name(nm), nm, NCOMP[nm]
+    if k == 3:
+        return cs_cie(rng, rng.choice(["CalGray", "CalRGB", "Lab"]))
+    if k == 4:
+        return cs_icc(rng, alloc)
+    nm = rng.choice(["DeviceRGB", "DeviceCMYK"])
+    return Name(nm), nm, NCOMP[nm]
+
+
+def cs_separation(rng, alloc, ftype=None):
+    ftype = rng.choice([2, 4, 0]) if ftype is None else ftype
+    alt, adesc, n = cs_base(rng, alloc)
+    nm = rng.choice(COLORANTS)
+    f, fdesc = cs_function(rng, alloc, ftype, 1, n, indirect=rng.random() < 0.5)
+    return [Name("Separation"), Name(nm), alt, f], "Separation(%s,%s,%s)" % (nm, adesc, fdesc)
+
+
+def cs_devicen(rng, alloc, ftype=None, attr=None, ncol=None, fn_indirect=None, attr_indirect=None):
+    """attr: None = no fifth element | "nchannel" | "full" (Subtype, Colorants, Process)"""
+    ftype = rng.choice([2, 4, 4, 0]) if ftype is None else ftype
+    if ncol is None:
+        ncol = 1 if ftype == 2 else rng.randint(1, 3)        # a type 2 function has exactly one input
+    if attr is None and rng.random() < 0.5:
+        attr = rng.choice(["nchannel", "full"])
+    names = rng.sample(COLORANTS[:8], ncol)
+    alt, adesc, n = cs_base(rng, alloc)
+    f, fdesc = cs_function(rng, alloc, ftype, ncol, n, indirect=(rng.random() < 0.5) if fn_indirect is None else fn_indirect)
+    arr = [Name("DeviceN"), [Name(x) for x in names], alt, f]
+    a = "-"
+    if attr is not None and attr is not False:
+        if attr == "nchannel":
+            d = {"Subtype": Name("NChannel")}
+        else:
+            sep, _ = cs_separation(rng, alloc, ftype=2)
+            d = {"Subtype": Name("DeviceN"), "Colorants": {names[0]: sep},
+                 "Process": {"ColorSpace": Name("DeviceCMYK"), "Components": [Name(x) for x in COLORANTS[:4]]}}
+        a = _keys(d)
+        arr.append(alloc(d) if ((rng.random() < 0.4) if attr_indirect is None else attr_indirect) else d)
+    return arr, "DeviceN(%s,%s,%s,%s)" % ("+".join(names), adesc, fdesc, a)
+
+
+def cs_indexed(rng, alloc, stream=None, base=None):
+    bv, bdesc, n = cs_base(rng, alloc) if base is None else base
+    hival = rng.choice([0, 1, 1, 3, 15, 255 if n == 1 else 7])
+    table = _rbytes(rng, (hival + 1) * n)
+    stream = (rng.random() < 0.5) if stream is None else stream
+    lk = alloc(Stream({}, table)) if stream else table
+    return [Name("Indexed"), bv, hival, lk], "Indexed(%s,%d,%s)" % (bdesc, hival, table.hex())
+
+
+def cs_all_families(rng, alloc):
+    """one colour space of every family and spelling, in a fixed order"""
+    out = []
+    out.append(cs_devicen(rng, alloc, ftype=4, attr=False, ncol=2))                       # stream tint transform, 4 elements
+    out.append(cs_devicen(rng, alloc, ftype=0, attr=False, ncol=2))
+    out.append(cs_devicen(rng, alloc, ftype=4, attr="nchannel", ncol=3, attr_indirect=False))
+    out.append(cs_devicen(rng, alloc, ftype=0, attr="full", ncol=2, attr_indirect=True))
+    out.append(cs_devicen(rng, alloc, ftype=2, attr=False, ncol=1, fn_indirect=False))     # dictionary tint transform, 4 elements
+    out.append(cs_devicen(rng, alloc, ftype=2, attr="nchannel", ncol=1, fn_indirect=False, attr_indirect=False))
+    out.append(cs_devicen(rng, alloc, ftype=2, attr="full", ncol=1, fn_indirect=True, attr_indirect=True))
+    for ft in (2, 4, 0):
+        out.append(cs_separation(rng, alloc, ftype=ft))
+    out.append(cs_indexed(rng, alloc, stream=False))
+    out.append(cs_indexed(rng, alloc, stream=True))
+    out.append(cs_indexed(rng, alloc, stream=False, base=cs_icc(rng, alloc, n=3, alt=True)))
+    sep = cs_separation(rng, alloc, ftype=4)
+    out.append(cs_indexed(rng, alloc, stream=True, base=(sep[0], sep[1], 1)))
+    out.append(cs_icc(rng, alloc, alt=True)[:2])
+    out.append(cs_icc(rng, alloc, alt=False)[:2])
+    for fam in ("CalRGB", "CalGray", "Lab"):
+        out.append(cs_cie(rng, fam)[:2])
+    out.append((Name("Pattern"), "Pattern"))
+    out.append(([Name("Pattern")], "Pattern"))
+    out.append(([Name("Pattern"), Name("DeviceRGB")], "Pattern"))
+    for nm in ("DeviceGray", "DeviceRGB", "DeviceCMYK"):
+        out.append((Name(nm), nm))
+    return out
+
+
+def cs_random(rng, alloc):
+    k = rng.randrange(9)
+    if k <= 2:
+        return cs_devicen(rng, alloc)
+    if k == 3:
+        return cs_separation(rng, alloc)
+    if k == 4:
+        return cs_indexed(rng, alloc)
+    if k == 5:
+        return cs_icc(rng, alloc)[:2]
+    if k == 6:
+        return cs_cie(rng, rng.choice(["CalGray", "CalRGB", "Lab"]))[:2]
+    if k == 7:
+        return rng.choice([(Name("Pattern"), "Pattern"), ([Name("Pattern")], "Pattern"), ([Name("Pattern"), Name("DeviceCMYK")], "Pattern")])
+    nm = rng.choice(list(NCOMP))
+    return Name(nm), nm
+
+
+def colour_spaces(rng, next_free, everything=False):
+    """a /ColorSpace sub-dictionary: 1..4 random colour spaces, or one of every family"""
+    cs = ColourSpaces()
+
+    def alloc(v):
+        num = next_free()
+        cs.objs[num] = v
+        return Ref(num)
+    lst = cs_all_families(rng, alloc) if everything else [cs_random(rng, alloc) for _ in range(rng.randint(1, 4))]
+    for i, (v, d) in enumerate(lst):
+        nm = "%s%d" % (rng.choice(["CS", "Cs", "C"]), i)
+        cs.entries[nm] = v
+        cs.desc[nm] = d
+    return cs
 
 
 # ---- the object store the Coq model reads ------------------------------------------------------------
@@ -248,6 +481,7 @@ def decorate(root, rng, next_free):
     """random placement of the three inheritable attributes; returns (res_objs, boxrefs)"""
     ns = nodes(root)
     p = {a: rng.choice([0.0, 0.1, 0.3, 0.6]) for a in ATTRS}
+    p_cs = rng.choice([0.0, 0.3, 0.3, 0.7])         # share of the resource dictionaries that name colour spaces
     res_objs, boxrefs = {}, {}
     style = rng.randrange(5)
     for n in ns:
@@ -267,6 +501,8 @@ def decorate(root, rng, next_free):
                     n.res = ("R", num)
                 else:
                     n.res = ("D", "K%d" % n.num if rng.random() < 0.8 else "")
+                if rng.random() < p_cs:
+                    n.cs = colour_spaces(rng, next_free)
             else:
                 setattr(n, a, rand_rect(rng))
                 if rng.random() < 0.15:
